@@ -4,6 +4,7 @@ package farm
 
 import (
 	"github.com/cosmos/cosmos-sdk/codec"
+	"github.com/cosmos/gogoproto/proto"
 
 	"encoding/json"
 
@@ -29,16 +30,21 @@ const (
 )
 
 // Variant fixes the pool parameters and the alphabet of one exploration.
+type protoMsg = proto.Message
+
 type Variant struct {
-	Name       string
-	Farmers    []string
-	StakeAmts  []int64
-	RPB        sdk.Coins
-	Total      sdk.Coins
-	StartDelta int64  // pool start = fixture height + StartDelta
-	Creator    bool   // include creator ops (top-up, rate change, destroy)
-	BigStake   bool   // include a 10^18+1 stake
-	Mode       string // "C05" or "C06": which oracles are evaluated
+	// CommunityPool: the pool under test is created by the community-pool proposal handler (creator = the
+	// distribution module account, not editable); its remaining budget goes back to the community pool
+	CommunityPool bool
+	Name          string
+	Farmers       []string
+	StakeAmts     []int64
+	RPB           sdk.Coins
+	Total         sdk.Coins
+	StartDelta    int64  // pool start = fixture height + StartDelta
+	Creator       bool   // include creator ops (top-up, rate change, destroy)
+	BigStake      bool   // include a 10^18+1 stake
+	Mode          string // "C05" or "C06": which oracles are evaluated
 	// InitialHeight of the chain (0 = 1)
 	InitialHeight int64
 	// OtherPools creates that many further long-lived pools (farm-2 ...) by another creator after the pool under
@@ -237,6 +243,15 @@ func New(v Variant) func() (*mc.Env, mc.Driver) {
 	}
 }
 
+// creatorAddr: who the remaining budget goes back to - the creating account, or, for a pool created by a
+// community-pool proposal, the distribution module account (where the community pool's coins are kept)
+func (d *Driver) creatorAddr() sdk.AccAddress {
+	if d.V.CommunityPool {
+		return mc.ModuleAddr("distribution")
+	}
+	return mc.Addr(creator)
+}
+
 func (d *Driver) ID() string       { return d.V.Mode + "/" + d.V.Name }
 func (d *Driver) Stores() []string { return []string{"farm", "bank"} }
 
@@ -258,9 +273,21 @@ func (d *Driver) Init(e *mc.Env) *mc.State {
 		must(s.Deliver(e, "fx-fund-"+f, mc.Send(mc.Addr("C"), mc.Addr(f), mc.CI(lpt, give))), "fund "+f)
 	}
 	start := s.Ctx.BlockHeight() + d.V.StartDelta
-	must(s.Deliver(e, "fx-createpool", &farmtypes.MsgCreatePool{
-		Description: "p", LptDenom: lpt, StartHeight: start, RewardPerBlock: d.V.RPB, TotalReward: d.V.Total,
-		Editable: true, Creator: mc.Addr(creator).String()}), "create-pool")
+	if d.V.CommunityPool {
+		// the pool comes from a passed community-pool proposal: the funds wait on the escrow collector account, the
+		// proposal handler creates the pool in the name of the distribution module account (not editable)
+		must(s.DeliverWith(e, "fx-createpool-by-proposal", func(ctx sdk.Context, _ sdk.Msg) (protoMsg, error) {
+			if err := e.App.BankKeeper.SendCoinsFromAccountToModule(ctx, mc.Addr(creator), farmtypes.EscrowCollector, d.V.Total); err != nil {
+				return nil, err
+			}
+			return &farmtypes.MsgCreatePoolResponse{}, e.Farm.HandleCreateFarmProposal(ctx, &farmtypes.CommunityPoolCreateFarmProposal{
+				Title: "t", Description: "d", PoolDescription: "p", LptDenom: lpt, RewardPerBlock: d.V.RPB, FundApplied: d.V.Total})
+		}, &farmtypes.MsgCreatePool{Description: "p", LptDenom: lpt, StartHeight: start, RewardPerBlock: d.V.RPB, TotalReward: d.V.Total, Creator: mc.Addr(creator).String()}), "create-pool-by-proposal")
+	} else {
+		must(s.Deliver(e, "fx-createpool", &farmtypes.MsgCreatePool{
+			Description: "p", LptDenom: lpt, StartHeight: start, RewardPerBlock: d.V.RPB, TotalReward: d.V.Total,
+			Editable: true, Creator: mc.Addr(creator).String()}), "create-pool")
+	}
 	for i := 0; i < d.V.OtherPools; i++ {
 		// same reward denominations at another rate, budget for 1000 blocks, nobody staked
 		var rpb, tot sdk.Coins
@@ -412,7 +439,7 @@ func (d *Driver) apply(e *mc.Env, s *mc.State, op mc.Op) []mc.Finding {
 	m := s.Model.(*model)
 	P := d.V.Mode
 	var fs []mc.Finding
-	kaddr := mc.Addr(creator)
+	kaddr := d.creatorAddr()
 	switch od.kind {
 	case "block":
 		if od.n > 1 {
